@@ -216,6 +216,13 @@ func netCases(f lib.Flags, g *lib.ChainGen, fg *lib.ChainGen, pos int) []netCase
 		}
 		out = append(out, netCase{tc: tc, expect: e})
 	}
+	for _, tc := range compensatingCases(g, pos) { // round 6: the expectation is computed per format by the family itself
+		e := "reject"
+		if !tc.MustReject {
+			e = ""
+		}
+		out = append(out, netCase{tc: tc, expect: e})
+	}
 	for _, tc := range rehashCases(g, pos) {
 		e := "reject"
 		if !tc.MustReject {
